@@ -218,6 +218,8 @@ def rule_guards_first(ctx: Ctx) -> None:
 def run(ctx: Ctx) -> None:
     rule_commit_last(ctx)
     rule_lemma_premises(ctx)
+    from . import c02
+    c02.rule_loan_amount(ctx, rule="C07.2")
     rule_guards_first(ctx)
     ctx.assume("asserts are stated beliefs, not raise sites")
     ctx.assume("dict/set/list operations on internal containers do not raise (keys recorded by the paired operation)")
